@@ -126,7 +126,7 @@ class Check(object):
             'replays_run': self.replays_run,
             'spurious_witnesses_dropped': self.spurious,
             'checker_cmd': './check %s --tier %s' % (self.pid, self.tier),
-            'trusted_base': ['z3 5.1', 'CPython semantics of un-instrumented code', 'hv.instrument (validated by repo tests)', 'oracle files under /verif/oracle'],
+            'trusted_base': ['z3 5.1', 'cvc5 1.0.3 binary (second engine for whole-return queries z3 leaves unknown; its sat models are re-checked by z3 and replayed)', 'CPython semantics of un-instrumented code', 'hv.instrument (validated by repo tests)', 'oracle files under /verif/oracle'],
         }
         cov.update(self.extra)
         ev = {
